@@ -36,6 +36,20 @@ CHECKS["C17"] = dict(
          "sync_event_return on a concrete grid each run), the handler stub contract listed in evidence.assumptions.",
     design="4/C17")
 
+CHECKS["C16"] = dict(
+    level="model_checking", engine="X",
+    technique="CrossHair symbolic execution (z3) of the real DataModel over a pure-Python pandas stand-in and of the real "
+              "GIRBlockViewer, with symbolic written values / cells / shapes, compared with a list-of-dicts scan model; "
+              "counterexamples replayed on real pandas",
+    text="Bounded model checking over operation histories: for the listed initial tables every single mutation (thorough: "
+         "two) with symbolic written values and every order of the query groups before/after it is executed on the real "
+         "DataModel code and every query is compared with a scan of a list-of-dicts model; GIRBlockViewer is executed on "
+         "every well-nested row sequence up to the bound. CONFIRMED means CrossHair exhausted the slice. Histories are "
+         "the property's quantifier; the bound is stated in evidence.",
+    note="Trusted: CrossHair/z3; the pandas stand-in (vlib/stubs/fakepandas.py, validated against real pandas on a corpus "
+         "every run; every counterexample must reproduce on real pandas); the scan model.",
+    design="4/C16")
+
 NOT_APPLICABLE = {
     "C12": "A relation between two whole-pipeline runs on syntactically edited programs: the quantified objects are "
            "program texts and edit sequences; no run-time input, id, flag or history for a solver to range over; "
